@@ -495,9 +495,13 @@ def gen_case(rng, family, max_iter, small=False):
         opts['covariance_norm'] = [
             'eigenvalue', 'trace', False][int(rng.integers(3))]
         opts['affiliation_eps'] = [0.0, 1e-10][int(rng.integers(2))]
+    if (family.startswith('gmm') or family.startswith('gcacgmm')) and rng.random() < 0.15:
+        # documented option: class covariances given, only the means are learned (an exact M-step over the means)
+        x = e if fam.has_embedding else y
+        opts['fixed_covariance'] = float(np.var(x) * rng.choice([0.5, 1.0, 2.0]))
     iterations = int(rng.integers(1, max_iter + 1))
     meta = dict(family=family, K=K, D=D, E=E, F=F, N=N, wca=str(wca), saliency=skind, start=ikind,
-                covariance_norm=str(opts.get('covariance_norm')), iterations=iterations, outliers=outliers, offset=offset)
+                covariance_norm=str(opts.get('covariance_norm')), iterations=iterations, outliers=outliers, offset=offset, fixed_covariance='fixed_covariance' in opts)
     return dict(family=family, y=y, e=e, init=init, opts=opts, iterations=iterations), meta
 
 
@@ -521,7 +525,7 @@ def search(ctx):
         em_monotone.last = None
         held = ctx.run(em_monotone, **case)
         last = em_monotone.last or {}
-        for k in ('family', 'wca', 'saliency', 'covariance_norm', 'outliers', 'offset'):
+        for k in ('family', 'wca', 'saliency', 'covariance_norm', 'outliers', 'offset', 'fixed_covariance'):
             ctx.count(f'search-{k}:{meta[k]}')
         ctx.count('search-steps-judged', int(last.get('judged', 0)))
         ctx.count(f'search-guard:{last.get("guard")}')
